@@ -50,6 +50,8 @@ ASSUMPTIONS = [
     "memory weights e = (k-n_b)^-1 (0.5, 1/3); the schedule itself is C05's subject, here S is whatever the algorithm hands to update_parameters",
     "float32 implementation vs float64 reference: every tolerance is k*eps32*sum|terms| of the operation (written next to the comparison); population means are demanded bit-exact",
     "a feature without any observation in the whole cohort has no defined per-feature noise level (the implementation stores NaN): not compared, counted",
+    "mixture responsibilities use the implementation's documented floor (log-weight >= -100): it only matters for a cluster farther than 100 nats from an individual; "
+    "an (almost) empty cluster is produced by re-applying a parameter warm start (tau_mean of one cluster far from every individual) before every step",
     "collapsed dispersions (variance < 1e-5, documented LeaspyConvergenceError) are outside the alphabet; a raise is accepted only if the reference variance is below the threshold",
     "mixture: responsibilities are the per-individual normalised cluster weights computed from the pre-step parameters and the latent values; the "
     "implementation's convention (component likelihoods, current cluster probabilities not included) is accepted and counted "
@@ -101,6 +103,14 @@ XI = {"A": [0.4, -0.7, 0.1], "B": [-0.3, 0.9, 0.5]}
 SRC = {"A": [[0.5, -0.2], [-1.0, 0.7], [0.3, 1.1]], "B": [[-0.6, 0.9], [0.8, -0.4], [1.2, 0.2]]}
 POP_OFFSET = {"betas": 0.05, "zeta": 0.03, "g": 0.1, "log_rho": 0.1}  # default 0.25
 
+# mixture only: parameter warm starts applied before EVERY step of a history (a user may set parameters in the state):
+# one cluster is placed far from every individual so that it gets (almost) no responsibility.
+#   far<c>:  tau_mean[c] = 10, tau_std = 8 -> about 25 nats behind the other cluster (mean responsibility ~ 1e-11)
+#   gone<c>: tau_mean[c] = -300           -> > 1000 nats: the implementation's floor (log-weight >= -100) decides
+WARM = {"far0": (0, 10.0), "far1": (1, 10.0), "gone0": (0, -300.0), "gone1": (1, -300.0)}
+WARM_NEAR_TAU_MEAN, WARM_TAU_STD = 72.0, 8.0
+LOGW_FLOOR = -100.0  # torch.clamp(-nll, -100) in every mixture rule
+
 PHASES = ["memory-less phase", "first iteration after the memory-less phase", "with memory"]
 N_BURN = 2
 
@@ -114,6 +124,8 @@ def bounds(tier):
         + ("(<= 45 per layout)" if tier == "quick" else "(<= 945 per layout)"),
         "latent_states": "all 2^g combinations of the g = 3 or 4 latent groups (pop, tau, xi, sources)",
         "history": "k = n_b, n_b+1, n_b+2" + (", n_b+3" if tier == "thorough" else "") + " with n_b = 2, step power 1",
+        "mixture_empty_cluster": "parameter warm starts far0/far1/gone0/gone1 (tau_mean of one cluster at 10 or -300, tau_std 8) re-applied before every step, "
+        "for complete data and every single missing entry, all latent states, all phases",
         "real_fits": "seeded fits (6-8 iterations) of 5 (quick) / 9 (thorough) configurations, every iteration checked",
     }
 
@@ -318,6 +330,17 @@ def set_latent(info, st, label, n):
         st["sources"] = torch.tensor([SRC[choice["sources"]][i][:ns] for i in range(n)], dtype=torch.float32)
 
 
+def apply_warm(st, warm):
+    if warm is None:
+        return
+    c, far = WARM[warm]
+    cur = st["tau_mean"]
+    mean = torch.full_like(cur, WARM_NEAR_TAU_MEAN)
+    mean[c] = far
+    st["tau_mean"] = mean
+    st["tau_std"] = torch.full_like(st["tau_std"], WARM_TAU_STD)
+
+
 def fresh_case_state(model, dataset):
     st = model.state.clone(disable_auto_fork=True)
     st.auto_fork_type = None
@@ -358,9 +381,10 @@ def mixture_responsibilities(info, pre, lat, with_probs):
         sd = float(np.asarray(pre.get("sources_std", 1.0)).reshape(-1)[0])
         s = lat["sources"]  # (n, ns)
         nll += (0.5 * ((s[:, :, None] - mu[None, :, :]) / sd) ** 2 + math.log(sd)).sum(axis=1)
-    logw = -nll
+    logw = np.maximum(-nll, LOGW_FLOOR)  # the documented floor of the implementation (only matters for an empty cluster)
     if with_probs:
-        logw = logw + np.log(pre["probs"].reshape(-1))[None, :]
+        with np.errstate(divide="ignore"):
+            logw = logw + np.log(pre["probs"].reshape(-1))[None, :]
     logw = logw - logw.max(axis=1, keepdims=True)
     w = np.exp(logw)
     return w / w.sum(axis=1, keepdims=True), nll.min(axis=1)
@@ -535,6 +559,8 @@ def check_step(info, pre, post, S, s_cur, burn_in, lat, phase, mclass, acc=None)
                 bad("update_parameters", "mixture probabilities do not sum to one", "mixture", f"{phase}: {_fmt(got)} sum {got.sum()!r}")
             if resp is not None:
                 r_lik, r_post = resp
+                if acc is not None and r_lik.mean(axis=0).min() < 1e-3:
+                    acc.count("mixture_steps_with_a_mean_responsibility_below_1e-3")
                 tol = 1e-5  # responsibilities: exp of float32 log-weights of magnitude <= 90 (90 eps32 ~ 1e-5 relative)
                 ok_post, ok_lik = _close(got, r_post.mean(axis=0), tol), _close(got, r_lik.mean(axis=0), tol)
                 distinguishable = not _close(r_post.mean(axis=0), r_lik.mean(axis=0), 4 * tol)
@@ -594,7 +620,7 @@ def check_step(info, pre, post, S, s_cur, burn_in, lat, phase, mclass, acc=None)
 # ------------------------------------------------------------------------------------------
 # one grid case = one history on the real algorithm object
 
-def run_history(ctx, layout_name, missing, label, n_steps, acc=None, sample=False):
+def run_history(ctx, layout_name, missing, label, n_steps, acc=None, sample=False, warm=None):
     """Returns (problems [(signature, message)], per-step records)."""
     info, model, rec = ctx["info"], ctx["model"], ctx["rec"]
     layout = LAYOUTS[layout_name]
@@ -618,6 +644,7 @@ def run_history(ctx, layout_name, missing, label, n_steps, acc=None, sample=Fals
         phase = PHASES[min(step, 2)]
         algo.current_iteration = k
         set_latent(info, st, lab, n)
+        apply_warm(st, warm)
         rec.clear()
         raised = None
         try:
@@ -652,7 +679,7 @@ def run_history(ctx, layout_name, missing, label, n_steps, acc=None, sample=Fals
         step_problems = check_step(info, pre, post, S, s_cur, burn_in, lat, phase, mclass, acc)
         problems.extend(step_problems)
         moved = any(not np.array_equal(pre[p], post[p]) for p in info["params"])
-        r = {"phase": phase, "outcome": ("ok" if not step_problems else "mismatch"), "moved": moved,
+        r = {"phase": phase, "outcome": ("ok" if not step_problems else "mismatch"), "moved": moved, "warm": warm,
              "digest": tdigest(*[torch.from_numpy(np.ascontiguousarray(post[p])) for p in info["params"]])}
         if sample:
             r["latent_state"] = lab
@@ -759,6 +786,12 @@ def shards(tier, seed):
             size = max(8, int(2400 / (n_lat * n_steps)))  # ~ 2400 steps (~ 10-20 s) per shard
             for lo, hi in _chunks(n_pat, size):
                 out.append({"kind": "grid", "config": name, "layout": layout_name, "lo": lo, "hi": hi, "n_steps": n_steps})
+    # mixture: one cluster (almost) empty before every step; complete data and every single missing entry
+    for layout_name in lay:
+        name = "mixture_d4_s2_diag"
+        n_ent = len(entries(LAYOUTS[layout_name], CONFIGS[name]["dim"], 2))
+        for w in WARM:
+            out.append({"kind": "grid", "config": name, "layout": layout_name, "lo": 0, "hi": 1 + n_ent, "n_steps": n_steps, "warm": w})
     for f in (FITS_QUICK if tier == "quick" else FITS_THOROUGH):
         out.append({"kind": "fit", "config": f[0], "layout": f[1], "missing": f[2], "n_iter": f[3], "seed": seed})
     return out
@@ -766,7 +799,7 @@ def shards(tier, seed):
 
 def _account(acc, info, records):
     for r in records:
-        acc.outcome(f"{r['phase']}: {r['outcome']}")
+        acc.outcome(f"{r['phase']}{', (almost) empty cluster' if r.get('warm') else ''}: {r['outcome']}")
         if r.get("moved") and r["outcome"] in ("ok", "mismatch"):
             acc.nontriv((info["name"], r["phase"], r["digest"]))
 
@@ -789,13 +822,15 @@ def run_shard(shard):
         missing = pats[pi]
         for label in latent_labels(info):
             want_sample = shard["layout"] == "2+1" and len(missing) == 1 and label == "AB" + "A" * (len(info["groups"]) - 2) and pi == 1
-            problems, records = run_history(ctx, shard["layout"], missing, label, shard["n_steps"], acc, sample=want_sample)
+            warm = shard.get("warm")
+            want_sample = want_sample and warm is None
+            problems, records = run_history(ctx, shard["layout"], missing, label, shard["n_steps"], acc, sample=want_sample, warm=warm)
             _account(acc, info, records)
             if label == latent_labels(info)[0]:
                 acc.count(f"patterns: {ctx['mclass']}")
             case = {"kind": "grid", "config": shard["config"], "layout": shard["layout"], "missing": missing,
                     "missing_entries(individual,visit,feature)": [entries(LAYOUTS[shard["layout"]], info["spec"]["dim"], 2)[q] for q in missing],
-                    "latent": label, "n_steps": shard["n_steps"]}
+                    "latent": label, "n_steps": shard["n_steps"], "warm": warm}
             if want_sample:
                 acc.sample(dict(case, steps=records))
             for sig, msg in problems:
@@ -808,5 +843,5 @@ def replay(case):
         problems, _ = run_fit(case["config"], case["layout"], case["missing"], case["n_iter"], case["seed"])
     else:
         ctx = make_ctx(case["config"])
-        problems, _ = run_history(ctx, case["layout"], case["missing"], case["latent"], case["n_steps"])
+        problems, _ = run_history(ctx, case["layout"], case["missing"], case["latent"], case["n_steps"], warm=case.get("warm"))
     return [{"signature": s, "message": m} for s, m in problems]
